@@ -3,7 +3,7 @@
    the correspondence check runs against catchment.py, land.py and demand.py. *)
 From Coq Require Import QArith Qminmax List Bool Arith.
 From WSI Require Import Vqip Pow Tank Arc QTank Distrib Kinds Boundary Run TankLaws ArcLaws QueueLaws DistribLaws KindLaws BoundaryLaws.
-From WSI Require TimeArea Demand DemandLaws.
+From WSI Require TimeArea Demand DemandLaws LandV LandLaws.
 Import ListNotations.
 Open Scope Q_scope.
 
@@ -57,3 +57,13 @@ Example C17_items_of_the_two_demand_classes : forall S (P : port S) (n : Demand.
   fst (nth 1 (Demand.items_residential S P n na nn eff house) (vzero, None)) = house.
 Proof. intros. repeat split. Qed.
 Print Assumptions C17_items_of_the_two_demand_classes.
+
+(* rain and evaporation on a PERVIOUS surface (coq/LandV.v ihacres, tied by family land): the rain it declares is depth
+   times area; the evaporation it declares never exceeds potential evaporation times its coefficient times area, nor the
+   rain plus the water the soil held - in every moisture state, for all soil parameters *)
+Theorem C17_pervious_surface_rain_and_evaporation : forall p area t rain et0 T tn,
+  0 < area -> 0 <= et0 -> 0 <= LandV.ps_et0c p -> 0 <= rain -> 0 <= LandV.ps_infil p ->
+  let '(t', excess, ssf, perc, pr, ev) := LandV.ihacres p area t rain et0 T tn in
+  pr == rain * area /\ ev <= et0 * LandV.ps_et0c p * area /\ ev <= (rain + vol (t_sto t) / area) * area.
+Proof. exact LandLaws.ihacres_boundary. Qed.
+Print Assumptions C17_pervious_surface_rain_and_evaporation.
